@@ -65,6 +65,8 @@ type c15Op struct {
 	Fail   float64  `json:"max_fail_rate"`
 	// StallAt > 0: the source blocks for 300 ms before answering that read (never sent to the fresh process)
 	StallAt int `json:"-"`
+	// FaultAt > 0: that read fails, and so does every later one (never sent to the fresh process)
+	FaultAt int `json:"-"`
 }
 
 // c15Exec performs the call on the given live objects and renders the result.
@@ -77,18 +79,49 @@ type c15Kept struct {
 
 var c15Retained []c15Kept
 
+// c15RetainedErrs: every error a call returned, with the text it had when it was returned
+type c15KeptErr struct {
+	err  error
+	text string
+}
+
+var c15RetainedErrs []c15KeptErr
+
+func c15RetainErr(err error) {
+	if err != nil && len(c15RetainedErrs) < 4000 {
+		c15RetainedErrs = append(c15RetainedErrs, c15KeptErr{err, err.Error()})
+	}
+}
+
 func c15Retain(p *spg.Password) {
 	if p != nil && len(c15Retained) < 4000 {
 		c15Retained = append(c15Retained, c15Kept{p, tokRecs(p), math.Float32bits(p.Entropy)})
 	}
 }
 
+// c15Exec performs the call and appends how many bytes of its stream the call consumed: a call that is a function
+// of its recipe and its stream consumes the same bytes wherever in a history it stands.
 func c15Exec(op c15Op, cr *spg.CharRecipe, wr *spg.WLRecipe, wl *spg.WordList, sf spg.SFFunction) string {
+	c15LastTape = nil
+	res := c15ExecInner(op, cr, wr, wl, sf)
+	if t := c15LastTape; t != nil {
+		res += fmt.Sprintf("|B=%d", t.BytesOut)
+	}
+	return res
+}
+
+var c15LastTape *tape.Tape
+
+func c15ExecInner(op c15Op, cr *spg.CharRecipe, wr *spg.WLRecipe, wl *spg.WordList, sf spg.SFFunction) string {
 	var t *tape.Tape
 	if op.Script != nil {
 		t = &tape.Tape{Script: op.Script, AutoExtend: true, MaxDraws: 3000}
+		c15LastTape = t
 		if op.StallAt > 0 {
 			t.StallAt, t.Stall = op.StallAt, 300*time.Millisecond
+		}
+		if op.FaultAt > 0 {
+			t.FaultAt, t.FaultStick = op.FaultAt, true
 		}
 	}
 	switch op.Kind {
@@ -101,6 +134,7 @@ func c15Exec(op c15Op, cr *spg.CharRecipe, wr *spg.WLRecipe, wl *spg.WordList, s
 				return outcomeKey(o) + fmt.Sprintf("|E=%08x", math.Float32bits(o.Pw.Entropy))
 			}
 			if o.Err != nil {
+				c15RetainErr(o.Err)
 				return "ERR:" + o.Err.Error()
 			}
 			return outcomeKey(o)
@@ -342,6 +376,7 @@ func c15History(c *Ctx, r *gen.R, nops int, sample bool) {
 		c.Count("environment_probe_unavailable", 1)
 	}
 	c15Retained = nil
+	c15RetainedErrs = nil
 	pool := &c15Pool{}
 	// shared RequireSets backing array (with spare capacity)
 	pool.shared = make([]string, 2, 6)
@@ -570,9 +605,39 @@ func c15History(c *Ctx, r *gen.R, nops int, sample bool) {
 			op = c15Op{Kind: "sep", WL: &m, Call: "call", Script: script()}
 		}
 		op.Trials, op.Fail = spg.MaxTrials, spg.MaxFailRate
-		before := pool.snapshot()
+		// ---- now and then the call before this one was cut short by a failing source (the caller recovered)
+		if op.Script != nil && r.Chance(1, 10) {
+			ab := op
+			ab.FaultAt = r.Range(1, 6)
+			fin, _ := runBounded(20*time.Second, func() {
+				defer func() {
+					if rr := recover(); rr != nil {
+						tape.Restore()
+					}
+				}()
+				c15Exec(ab, cr, wr, wl, sf)
+			})
+			c.Exec(1)
+			c.Count("calls_aborted_by_a_failing_source", 1)
+			if !fin {
+				c.Inconclusive("a call with a failing source did not return")
+				c.Poison()
+				return
+			}
+		}
+		var before c15Snap // (reading the lists out draws from the source: the first library work after an aborted call)
+		if fin, blocked := runBounded(20*time.Second, func() { before = pool.snapshot() }); !fin {
+			c.Poison()
+			if blocked != "" {
+				c.Violate("call-blocks-because-of-earlier-calls", fmt.Sprintf("after a call that a failing source cut short (the caller recovered), the next generation never returns: %s", blocked),
+					map[string]interface{}{"position": n, "blocked": blocked})
+			} else {
+				c.Inconclusive("reading the pool's lists out had not finished after 20 s and was not seen blocked")
+			}
+			return
+		}
 		res := ""
-		func() {
+		fin, blocked := runBounded(20*time.Second, func() {
 			defer func() {
 				if rr := recover(); rr != nil {
 					tape.Restore()
@@ -580,7 +645,18 @@ func c15History(c *Ctx, r *gen.R, nops int, sample bool) {
 				}
 			}()
 			res = c15Exec(op, cr, wr, wl, sf)
-		}()
+		})
+		if !fin {
+			c.Poison()
+			ob, _ := json.Marshal(op)
+			if blocked != "" {
+				c.Violate("call-blocks-because-of-earlier-calls", fmt.Sprintf("op %d of a history (%s.%s) never returns: %s; the same call in a fresh process returns. op=%s", n, op.Kind, op.Call, blocked, ob),
+					map[string]interface{}{"op": op, "position": n, "blocked": blocked})
+			} else {
+				c.Inconclusive(fmt.Sprintf("op %d of a history (%s.%s) had not returned after 20 s and was not seen blocked", n, op.Kind, op.Call))
+			}
+			return
+		}
 		after := pool.snapshot()
 		c.Exec(1)
 		c.Count("calls_"+op.Call, 1)
@@ -647,6 +723,13 @@ func c15History(c *Ctx, r *gen.R, nops int, sample bool) {
 		}
 	}
 	c.Count("retained_passwords_rechecked", int64(len(c15Retained)))
+	for _, k := range c15RetainedErrs {
+		if now := k.err.Error(); now != k.text {
+			c.Violate("returned-error-changed-later", fmt.Sprintf("an error returned earlier in the history read %q then and reads %q at the end of the history", abbreviate(k.text), abbreviate(now)), nil)
+			return
+		}
+	}
+	c.Count("retained_errors_rechecked", int64(len(c15RetainedErrs)))
 	// ---- history independence: the same calls on fresh values in a fresh process
 	self, err := os.Executable()
 	if err != nil {
